@@ -161,12 +161,16 @@ CHECKS = {
         note=NOTE_COMMON + ' libc iconv, codecs.lookup, str.lower are oracles. Known findings D10, D19, D11.'),
     'C17': dict(
         category='other',
-        text='Partial. Proved: the path printed for a member of an unpacked package (fake_path specification); the loaders\' independence of spelling/layout is the content of the C10/C08 '
-             'theorems. Explored end to end through the real checker: one catalog spelled by two renderers, re-wrapped, octal-escaped, transcoded to ISO-8859-2 and by msgcat; MO files by '
-             'msgfmt in both byte orders / without hash table / other alignment; PO vs its MO; .deb packages built with dpkg-deb vs per-member runs, TMPDIR empty afterwards.',
+        text='Partial. Proved in Coq about the loader models: two PO files spelling one catalog differently (escape form per character, continuation chunks, padding, blank lines, '
+             'separators) load to the same result, and a transcoded spelling with the charset field adjusted loads to the same entries except the header entry (corollaries of the C10 '
+             'load/render theorems, file level, through detect_encoding and Codecs.open); two MO files encoding one catalog in any byte order / layout load to the same entries, charset and '
+             'hidden flag (C08); a member of an unpacked .deb (tmpdir/) or .dsc (tmpdir/s/) is printed as <package>/<member>. Not modelled: that every diagnostic is a function of the loaded '
+             'catalog, path, options and date; os.walk, subprocesses and temporary-directory cleanup. Those are explored end to end through the real checker: one catalog spelled by two renderers, '
+             're-wrapped, octal-escaped, transcoded (ISO-8859-2 and msgcat), MO files by msgfmt in both byte orders / without hash table / other alignment, PO vs its MO, .deb and native .dsc '
+             'packages (rejected members included) built with dpkg-deb / a tarball vs per-member runs, TMPDIR empty afterwards.',
         design_ref='DESIGN.md 5 / C17',
-        technique='Coq proof (fake_path; corollaries of C08/C10) + metamorphic exploration with independent tools (msgcat, msgfmt, dpkg-deb)',
-        note=NOTE_COMMON + ' Unpacking, os.walk order and temporary-directory removal are runtime behaviour, explored only.'),
+        technique='Coq proof (corollaries of the C08/C10 loader theorems; path mapping) + metamorphic exploration with independent tools (msgcat, msgfmt, dpkg-deb, dpkg-source)',
+        note=NOTE_COMMON + ' The step from the loaded catalog to the diagnostics is covered by the per-check properties (C07, C14-C16, C18-C20), not composed here.'),
     'C10': dict(
         category='proof',
         text='Proved in Coq for ALL inputs: polib_unescape returns exactly the byte string for every spelling of it in the C escape family (literal, \\n-style, octal, hex of the encoded '
